@@ -43,10 +43,11 @@ def regenerate(ctx):
     m.PSDXalpha = [None] * P
     m.PSDXbeta = [np.array([[V('(xb %d %d %d)' % (p, j, e), 0.1 + 0.01 * j + 0.02 * e) for e in range(E)] for j in range(n + 1)], dtype=object)
                   for p in range(P)]
-    m.matrixParameters.volume = type('Vol', (), {'Vm': V('vma', 1.0e-5)})()
+    m.matrixParameters.volume = type('Vol', (), {'Vm': V('vma', 1.0e-5), 'Va': V('vaa', 6.6e-29), 'a': V('aa', 4.05e-10), 'atomsPerCell': 4})()
     for p in range(P):
         pp = m.precipitateParameters[p]
-        pp.volume = type('Vol', (), {'Vm': V('(vmb %d)' % p, 0.9e-5 + 0.2e-5 * p)})()
+        pp.volume = type('Vol', (), {'Vm': V('(vmb %d)' % p, 0.9e-5 + 0.2e-5 * p), 'Va': V('(vab %d)' % p, 2.4e-28 + 1e-29 * p),
+                                     'a': V('(ab %d)' % p, 6.2e-10), 'atomsPerCell': 16})()
         pp.nucleation = type('Nuc', (), {'volumeFactor': V('(vfac %d)' % p, 4.18879 - p)})()
     m.pData.composition = m.pData.composition.astype(object)
     m.pData.composition[0] = np.array([V('(x0 %d)' % e, 0.05 + 0.01 * e) for e in range(E)], dtype=object)
@@ -67,6 +68,18 @@ def regenerate(ctx):
         raise RuntimeError('a recorded quantity lost its symbols in the trace')
     params = [('N', 'Nat → Nat → α'), ('R', 'Nat → Nat → α'), ('xb', 'Nat → Nat → Nat → α'), 'vma', ('vmb', 'Nat → α'),
               ('vfac', 'Nat → α'), ('x0', 'Nat → α')]
+    # the unit-cell quantities are offered to the traced code as symbols as well; the mass balance must not use them
+    # (molar volumes only) — if a traced output mentions one, the definitions get extra parameters and the theorems stop checking
+    def mentions(node, names, seen=None):
+        seen = set() if seen is None else seen
+        if node.id in seen:
+            return False
+        seen.add(node.id)
+        if node.op == 'var' and any(node.args[0].startswith(n) for n in names):
+            return True
+        return any(mentions(a, names, seen) for a in node.args if isinstance(a, sym.Node))
+    if any(mentions(o.node, ('vaa', '(vab', 'aa', '(ab')) for o in outs):
+        params += ['vaa', ('vab', 'Nat → α'), 'aa', ('ab', 'Nat → α')]
     src, _ = emit_def('mb', params, outs, doc='PrecipitateModel._calcMassBalance traced on 2 phases x 2 elements x 3 classes '
                       '(populated, unsaturated, unclamped path)', names=['comp0', 'comp1', 'vf0', 'vf1', 'fc00', 'fc01', 'fc10', 'fc11', 'dens0', 'ravg0'])
     text = HEADER + '\nnamespace KawinV.Gen.C01\n\n' + src + 'end KawinV.Gen.C01\n'
@@ -86,7 +99,7 @@ def synth_record(rng):
     P = rng.choice([1, 1, 2, 3]); E = rng.choice([1, 1, 2, 3])
     m = PrecipitateModel(phases=['P%d' % i for i in range(P)], elements=['E%d' % i for i in range(E)])
     r = np.random.default_rng(rng.getrandbits(32))
-    m.setVolumeAlpha(1e-5 * r.uniform(0.5, 2), VolumeParameter.MOLAR_VOLUME, 4)
+    m.setVolumeAlpha(1e-5 * r.uniform(0.5, 2), VolumeParameter.MOLAR_VOLUME, rng.choice([1, 2, 4]))
     kinds = []
     m.setGrainBoundaryEnergy(0.3)
     for p in range(P):
@@ -94,7 +107,7 @@ def synth_record(rng):
         n = int(rng.choice([1, 2, 5, 20, 75, 150]))
         cmin = 10 ** r.uniform(-10, -9)
         m.setPBMParameters(cMin=cmin, cMax=cmin * rng.choice([10, 50]), bins=n, minBins=max(1, n // 2), maxBins=2 * n, phase=ph)
-        m.setVolumeBeta(1e-5 * r.uniform(0.5, 2), VolumeParameter.MOLAR_VOLUME, 4, phase=ph)
+        m.setVolumeBeta(1e-5 * r.uniform(0.5, 2), VolumeParameter.MOLAR_VOLUME, rng.choice([1, 2, 4, 16]), phase=ph)
         site = rng.choice(SITES)
         m.setInterfacialEnergy(float(r.uniform(0.2, 0.5)), phase=ph)   # k = 0.3/(2 gamma) in (0.3, 0.75) < every site limit
         m.setNucleationSite(site, phase=ph)
@@ -103,7 +116,7 @@ def synth_record(rng):
         kinds.append(site + ('' if inf else '/nodiff'))
     m.PSDXalpha = [None] * P; m.PSDXbeta = [None] * P
     x = []
-    scen = rng.choice(['normal', 'normal', 'normal', 'empty', 'near-saturation', 'saturated', 'negative-comp', 'sticky'])
+    scen = rng.choice(['normal', 'normal', 'normal', 'empty', 'near-saturation', 'saturated', 'negative-comp', 'sticky', 'below-mincomp', 'below-mincomp'])
     R3 = [m.PBM[p].PSDsize ** 3 for p in range(P)]
     for p in range(P):
         n = m.PBM[p].bins
@@ -112,7 +125,8 @@ def synth_record(rng):
         else:
             N = np.where(r.random(n) < 0.7, 10 ** r.uniform(10, 22, n), 0.0)
             target = {'normal': r.uniform(1e-4, 0.2), 'empty': r.uniform(1e-4, 0.1), 'near-saturation': (1 - 10 ** r.uniform(-6, -2)) / P,
-                      'saturated': r.uniform(1.0, 3.0), 'negative-comp': r.uniform(0.2, 0.5) / P, 'sticky': r.uniform(0.01, 0.3)}[scen]
+                      'saturated': r.uniform(1.0, 3.0), 'negative-comp': r.uniform(0.2, 0.5) / P, 'sticky': r.uniform(0.01, 0.3),
+                      'below-mincomp': r.uniform(0.05, 0.2) / P}[scen]
             c = (m.matrixParameters.volume.Vm / m.precipitateParameters[p].volume.Vm) * m.precipitateParameters[p].nucleation.volumeFactor
             tot = c * float(np.sum(N * R3[p]))
             if tot > 0:
@@ -122,11 +136,21 @@ def synth_record(rng):
         hi = 0.9 if scen == 'negative-comp' else 0.3
         m.PSDXbeta[p] = r.uniform(0.0, hi, (n + 1, E))
     x0 = r.uniform(0.001, 0.08, E)
+    if scen == 'below-mincomp':
+        # matrix almost depleted: balance composition positive but below a user-set minComposition (must NOT be clamped)
+        fc = np.zeros(E); sf = 0.0
+        for p in range(P):
+            c = (m.matrixParameters.volume.Vm / m.precipitateParameters[p].volume.Vm) * m.precipitateParameters[p].nucleation.volumeFactor
+            mid = 0.5 * (m.PSDXbeta[p][:-1] + m.PSDXbeta[p][1:])
+            fc += c * np.sum((x[p] * R3[p])[:, None] * mid, axis=0); sf += c * float(np.sum(x[p] * R3[p]))
+        target = r.uniform(1e-5, 2e-4, E)                       # desired matrix composition
+        x0 = fc + target * (1 - sf)
+        m.constraints.minComposition = float(rng.choice([3e-4, 1e-3]))
     m.pData.composition[0] = x0
     if scen == 'sticky':
         m.pData.volFrac[0, rng.randrange(P)] = 1.0
     m.pData.fconc[0] = r.uniform(0, 0.01, (P, E))
-    if rng.random() < 0.3:
+    if scen != 'below-mincomp' and rng.random() < 0.3:
         m.constraints.minComposition = 1e-8
     log = kwnruns.instrument(m)
     Y = m.pData.copySlice(m.pData.n)
@@ -301,7 +325,7 @@ def trace_runs(ctx):
         go('AlZr/rk4/grain-boundaries', kwnruns.build_binary(x0=x0, T=T, site='grain boundaries', gbEnergy=0.15), [3600.0], 'rk4', 150)
         # populated from the first step: no precipitate diffusion (content integrated from increments) with RK4 and Vm ratio != 1
         go('AlZr/rk4/loaded/nodiff/vratio', kwnruns.build_loaded_binary(ctx.rng, infinite=False, vratio=ctx.rng.choice([0.9, 1.2])), [300.0, 300.0], 'rk4', 60)
-        go('AlZr/euler/loaded/vratio', kwnruns.build_loaded_binary(ctx.rng, vratio=ctx.rng.choice([0.9, 1.2])), [600.0], 'euler', 200)
+        go('AlZr/euler/loaded/vratio/atoms16', kwnruns.build_loaded_binary(ctx.rng, vratio=ctx.rng.choice([0.9, 1.2]), atomsBeta=16), [600.0], 'euler', 200)
     else:
         go('AlZr/euler/dislocations/3-solves', kwnruns.build_binary(x0=x0, T=T), [3600 * 2, 3600 * 10, 3600 * 40], 'euler', None)
         go('AlZr/rk4/dislocations', kwnruns.build_binary(x0=x0, T=T), [3600 * 5.0], 'rk4', None)
